@@ -1007,6 +1007,162 @@ Section Univ.
     - split; [apply I3|]. intro X; congruence.
   Qed.
 
+  (* ----- what GC keeps ----- *)
+  Lemma res_tag_keeps d r m r' : lookup r' (r_index m) <> None -> lookup r' (r_index (res_tag d r m)) <> None.
+  Proof.
+    intro H. unfold res_tag. cbn [r_index]. rewrite lookup_rset. destruct (ref_eqb r' r); congruence.
+  Qed.
+
+  Lemma pass1_keeps bl l : forall a r', lookup r' (r_index (g_res a)) <> None ->
+    lookup r' (r_index (g_res (gc_pass1 bl l a))) <> None.
+  Proof.
+    induction l as [|[r d] l IH]; intros a r' H; simpl; auto.
+    apply IH. cbn [fst snd]. destruct (is_digest_ref r d); auto.
+    cbn [g_res]. apply res_tag_keeps. now apply res_tag_keeps.
+  Qed.
+  Lemma pass1_hits bl l : forall a r d, In (r, d) l -> is_digest_ref r d = false ->
+    lookup r (r_index (g_res (gc_pass1 bl l a))) <> None.
+  Proof.
+    induction l as [|[r0 d0] l IH]; intros a r d I E; simpl in I; [tauto|].
+    destruct I as [X|I].
+    - injection X as -> ->. simpl. apply pass1_keeps. cbn [fst snd]. rewrite E. cbn [g_res].
+      unfold res_tag at 1. cbn [r_index]. rewrite lookup_rset_eq. congruence.
+    - simpl. now apply (IH _ r d).
+  Qed.
+  Lemma round_keeps bl l : forall ac r', lookup r' (r_index (g_res (fst ac))) <> None ->
+    lookup r' (r_index (g_res (fst (fold_left (fun ac kv =>
+        let a := fst ac in let r := fst kv in let d := snd kv in
+        if negb (is_digest_ref r d) || mem (d_node d) (g_tagged a) then ac
+        else if chain_hits mf subj sk (S N) bl (g_gr a) (d_node d)
+             then (mkGc (res_tag (strip d) (RDig (d_node d)) (g_res a))
+                        (index_all bl (d_node d) (g_gr a)) (d_node d :: g_tagged a), true)
+             else ac) l ac)))) <> None.
+  Proof.
+    induction l as [|[r d] l IH]; intros ac r' H; cbn [fold_left]; auto.
+    apply IH. cbn [fst snd].
+    destruct (negb (is_digest_ref r d) || mem (d_node d) (g_tagged (fst ac))); auto.
+    destruct (chain_hits mf subj sk (S N) bl (g_gr (fst ac)) (d_node d)); auto.
+    cbn [fst g_res]. now apply res_tag_keeps.
+  Qed.
+  Lemma rounds_keeps bl m fuel : forall os a r', lookup r' (r_index (g_res a)) <> None ->
+    lookup r' (r_index (g_res (gc_rounds fuel bl m os a))) <> None.
+  Proof.
+    induction fuel as [|f IH]; intros os a r' H; cbn [OciIndex.gc_rounds]; auto.
+    assert (X : lookup r' (r_index (g_res (fst (gc_round bl (shuffle (hd [] os) m) a)))) <> None)
+      by (unfold OciIndex.gc_round; now apply round_keeps).
+    destruct (snd (gc_round bl (shuffle (hd [] os) m) a)); auto.
+  Qed.
+
+  (* every reference of the rebuilt resolver comes from an old reference to the same node *)
+  Definition src_ok (ix : rmap) (m : resolver) : Prop :=
+    forall r d, lookup r (r_index m) = Some d -> exists d0, lookup r ix = Some d0 /\ d_node d0 = d_node d.
+
+  Lemma src_tag ix m d r : src_ok ix m -> (exists d0, lookup r ix = Some d0 /\ d_node d0 = d_node d) ->
+    src_ok ix (res_tag d r m).
+  Proof.
+    intros S E r' d' L. unfold res_tag in L. cbn [r_index] in L. rewrite lookup_rset in L.
+    destruct (ref_eqb r' r) eqn:Er; [|now apply S].
+    apply ref_eqb_eq in Er. subst r'. injection L as <-. exact E.
+  Qed.
+
+  Lemma entry_sources ix r d : IxInv ix -> In (r, d) ix ->
+    (exists d0, lookup r ix = Some d0 /\ d_node d0 = d_node d) /\
+    (exists d0, lookup (RDig (d_node d)) ix = Some d0 /\ d_node d0 = d_node (strip d)).
+  Proof.
+    intros I Hin. pose proof (In_lookup _ _ _ (ix_nd _ I) Hin) as L. split; [eauto|].
+    destruct r as [t|k].
+    - pose proof (ix_j1 _ I _ _ L) as X. destruct (lookup (RDig (d_node d)) ix) as [d1|] eqn:L1; [|congruence].
+      exists d1. split; auto. now apply (ix_j2 _ I) in L1.
+    - pose proof (ix_j2 _ I _ _ L) as E. subst k. eauto.
+  Qed.
+
+  Lemma pass1_src ix bl l : IxInv ix -> forall a, (forall kv, In kv l -> In kv ix) -> src_ok ix (g_res a) ->
+    src_ok ix (g_res (gc_pass1 bl l a)).
+  Proof.
+    intros I. induction l as [|[r d] l IH]; intros a Hl Sr; simpl; auto.
+    apply IH; [intros kv X; apply Hl; now right|]. cbn [fst snd].
+    destruct (is_digest_ref r d); auto. cbn [g_res].
+    destruct (entry_sources ix r d I (Hl _ (or_introl eq_refl))) as [E1 E2].
+    apply src_tag; auto. now apply src_tag.
+  Qed.
+  Lemma round_src ix bl l : IxInv ix -> forall ac, (forall kv, In kv l -> In kv ix) -> src_ok ix (g_res (fst ac)) ->
+    src_ok ix (g_res (fst (fold_left (fun ac kv =>
+        let a := fst ac in let r := fst kv in let d := snd kv in
+        if negb (is_digest_ref r d) || mem (d_node d) (g_tagged a) then ac
+        else if chain_hits mf subj sk (S N) bl (g_gr a) (d_node d)
+             then (mkGc (res_tag (strip d) (RDig (d_node d)) (g_res a))
+                        (index_all bl (d_node d) (g_gr a)) (d_node d :: g_tagged a), true)
+             else ac) l ac))).
+  Proof.
+    intros I. induction l as [|[r d] l IH]; intros ac Hl Sr; cbn [fold_left]; auto.
+    apply IH; [intros kv X; apply Hl; now right|]. cbn [fst snd].
+    destruct (negb (is_digest_ref r d) || mem (d_node d) (g_tagged (fst ac))); auto.
+    destruct (chain_hits mf subj sk (S N) bl (g_gr (fst ac)) (d_node d)); auto.
+    cbn [fst g_res]. destruct (entry_sources ix r d I (Hl _ (or_introl eq_refl))) as [_ E2]. now apply src_tag.
+  Qed.
+  Lemma rounds_src ix bl fuel : IxInv ix -> forall os a, src_ok ix (g_res a) ->
+    src_ok ix (g_res (gc_rounds fuel bl ix os a)).
+  Proof.
+    intros I. induction fuel as [|f IH]; intros os a Sr; cbn [OciIndex.gc_rounds]; auto.
+    assert (X : src_ok ix (g_res (fst (gc_round bl (shuffle (hd [] os) ix) a)))).
+    { unfold OciIndex.gc_round. apply round_src; auto. intros kv Hin. now apply In_shuffle in Hin. }
+    destruct (snd (gc_round bl (shuffle (hd [] os) ix) a)); auto.
+  Qed.
+  Lemma pass3_src ix l : IxInv ix -> forall a, (forall kv, In kv l -> In kv ix) -> src_ok ix (g_res a) ->
+    src_ok ix (g_res (gc_pass3 l a)).
+  Proof.
+    intros I. induction l as [|[r d] l IH]; intros a Hl Sr; simpl; auto.
+    apply IH; [intros kv X; apply Hl; now right|]. cbn [fst snd].
+    destruct (is_digest_ref r d && mem (d_node d) (g_gr a)); auto.
+    destruct (lookup r (r_index (g_res a))); auto. cbn [g_res].
+    destruct (entry_sources ix r d I (Hl _ (or_introl eq_refl))) as [(d0 & L0 & E0) _].
+    apply src_tag; auto. exists d0. auto.
+  Qed.
+
+  (* GC as one operation: exactly the blob files of the rebuilt graph stay; every reference that is
+     left names a node of that graph; every reference whose node is in that graph is still there
+     (all tags: their nodes are roots of the graph) - i.e. GC is the abstract "keep the nodes of the
+     graph" step of Model/OciLocks.v with keep = the rebuilt graph *)
+  Theorem gc_effect cfg o s : Inv s -> snd (st_gc cfg o s) = ROk ->
+    let s' := fst (st_gc cfg o s) in
+    blobs s' = filter (fun k => mem k (gr s')) (blobs s) /\
+    (forall r d, lookup r (idx s') = Some d -> In (d_node d) (gr s')) /\
+    (forall t d, lookup (RTag t) (idx s) = Some d -> lookup (RTag t) (idx s') <> None) /\
+    (forall k, lookup (RDig k) (idx s) <> None -> In k (gr s') -> lookup (RDig k) (idx s') <> None) /\
+    (forall r d, lookup r (idx s') = Some d -> exists d0, lookup r (idx s) = Some d0 /\ d_node d0 = d_node d).
+  Proof.
+    intros H. unfold OciIndex.st_gc.
+    set (a1 := gc_pass1 (blobs s) (shuffle (o_gc1 o) (r_index (res s))) (mkGc res_empty [] [])).
+    unfold gc_pass2. set (a2 := gc_rounds (S (length (r_index (res s)))) (blobs s) (r_index (res s)) (o_gc2 o) a1).
+    pose proof H as H0. unfold Inv, idx in H0.
+    assert (G0 : GcInv (blobs s) (mkGc res_empty [] [])).
+    { split; simpl.
+      - split; simpl; [constructor| |]; intros ? ? X; discriminate.
+      - intros ? ? X; discriminate.
+      - intros ? []. }
+    assert (G1 : GcInv (blobs s) a1).
+    { apply (pass1_inv _ _ _ H0); auto. intros kv I. now apply In_shuffle in I. }
+    assert (G2 : GcInv (blobs s) a2).
+    { apply (rounds_inv _ _ _ H0); auto. }
+    rewrite pass3_eq.
+    destruct (pass3_inv _ _ _ H0 (r_index (res s)) a2 (fun kv I => I) G2) as (G3 & Eg & Mono).
+    set (a3 := fold_left p3step (r_index (res s)) a2) in *.
+    assert (Src : src_ok (r_index (res s)) (g_res a3)).
+    { pose proof (inv_ix _ _ _ H0) as I. unfold a3. rewrite <- pass3_eq. apply pass3_src; auto.
+      unfold a2. apply rounds_src; auto. unfold a1. apply pass1_src; auto.
+      - intros kv X. now apply In_shuffle in X.
+      - intros r d X. discriminate. }
+    intros _. unfold maybe_save, do_save, idx. destruct (autosave cfg); cbn [fst blobs res gr disk];
+      (split; [reflexivity|split; [|split; [|split; [|exact Src]]]]).
+    1,4: intros r d L; now apply (gi_val _ _ G3) in L as [_ L2].
+    1,3: intros t d L; apply Mono; unfold a2; apply rounds_keeps; unfold a1;
+         apply (pass1_hits _ _ _ (RTag t) d); [apply In_shuffle; now apply lookup_Some_In|reflexivity].
+    1,2: intros k L Ik; destruct (lookup (RDig k) (r_index (res s))) as [d|] eqn:Ld; [|congruence];
+         pose proof (ix_j2 _ (inv_ix _ _ _ H0) _ _ Ld) as Ek;
+         apply (pass3_hit _ _ _ H0 (r_index (res s)) a2 (RDig k) d (fun kv I => I) G2);
+         [now apply lookup_Some_In | apply digest_ref_inv; congruence | rewrite Ek; unfold a3 in Eg; rewrite <- Eg; exact Ik].
+  Qed.
+
   (* ----- reopening ----- *)
   Lemma reopen_good s : Inv s -> Synced s -> Inv (reopen s) /\ Synced (reopen s).
   Proof.
@@ -1213,6 +1369,23 @@ Section Univ.
     assert (S' : Synced s).
     { rewrite E. unfold Synced, idx. simpl. apply save_diskok. apply H. }
     split; [apply reopen_equiv | apply disk_valid_inv]; auto.
+  Qed.
+
+  (* GC after any history: exactly the blobs of the rebuilt graph stay, the references left name its
+     nodes, no tag and no digest reference of a kept node is lost *)
+  Theorem gc_effect_history cfg h o :
+    wf_history h -> (autosave cfg = true \/ no_reopen h) ->
+    let s := run cfg h store_empty in
+    snd (st_gc cfg o s) = ROk ->
+    let s' := fst (st_gc cfg o s) in
+    blobs s' = filter (fun k => mem k (gr s')) (blobs s) /\
+    (forall r d, lookup r (r_index (res s')) = Some d -> In (d_node d) (gr s')) /\
+    (forall t d, lookup (RTag t) (r_index (res s)) = Some d -> lookup (RTag t) (r_index (res s')) <> None) /\
+    (forall k, lookup (RDig k) (r_index (res s)) <> None -> In k (gr s') -> lookup (RDig k) (r_index (res s')) <> None) /\
+    (forall r d, lookup r (r_index (res s')) = Some d -> exists d0, lookup r (r_index (res s)) = Some d0 /\ d_node d0 = d_node d).
+  Proof.
+    intros W R s E. destruct (run_good h cfg store_empty (good_empty cfg) W R) as [H _].
+    exact (gc_effect cfg o s H E).
   Qed.
 
   (* the representation facts other properties rely on (C07: the reloaded graph is the live graph) *)
